@@ -49,8 +49,10 @@ func verif_C06_data() {
 	L := verifBound(2, 3)
 	msg := nondetBytesN(L)
 	stream := append(append([]byte{}, msg...), "\r\n.\r\n"...)
-	body, _, ok := refUnstuff(stream)
-	assume(ok)
+	body, end, ok := refUnstuff(stream)
+	// the appended marker is the first one (a message that contains an earlier
+	// end marker is a different conversation; C02 covers those)
+	assume(ok && end == len(stream))
 	m := len(body)
 	N := nondetInt(1, L+4)
 	lmtp := nondetBool()
@@ -168,18 +170,21 @@ func verif_C06_bdat() {
 			in = append(in, nondetBytesN(small[k])...)
 		}
 		sent++
+		if small[k] < 0 {
+			// a huge declared size: refused either way, and since the harness
+			// does not send that many octets nothing sensible can follow
+			expectRefused[i] = true
+			alive = false
+			nch = i + 1
+			break
+		}
 		if !alive {
 			expectRefused[i] = true // no open transaction any more: 5xx
 			continue
 		}
-		if small[k] < 0 || total+small[k] > N {
+		if total+small[k] > N {
 			expectRefused[i] = true
 			alive = false
-			if small[k] < 0 {
-				// nothing sensible can follow a chunk of unrepresentable size
-				nch = i + 1
-				break
-			}
 			continue
 		}
 		total += small[k]
